@@ -367,6 +367,35 @@ func compressorDeflates(c *Ctx, rule string) {
 // left from inside its body towards the loop's own exit block (a `break` out
 // of the header-line loop would skip the remaining header lines); leaving
 // through a distinct returning block (`return true`) is fine.
+// overStringList: the loop head tests a counter against the length of a
+// []string (the header lines of one name: range header[name], or an index loop
+// over them).
+func overStringList(h *ssa.BasicBlock) bool {
+	iff, ok := h.Instrs[len(h.Instrs)-1].(*ssa.If)
+	if !ok {
+		return false
+	}
+	cmp, ok := iff.Cond.(*ssa.BinOp)
+	if !ok {
+		return false
+	}
+	for _, side := range []ssa.Value{cmp.X, cmp.Y} {
+		call, isCall := side.(*ssa.Call)
+		if !isCall {
+			continue
+		}
+		if bi, isB := call.Call.Value.(*ssa.Builtin); !isB || bi.Name() != "len" || len(call.Call.Args) != 1 {
+			continue
+		}
+		if sl, isSl := call.Call.Args[0].Type().Underlying().(*types.Slice); isSl {
+			if b, isBasic := sl.Elem().Underlying().(*types.Basic); isBasic && b.Info()&types.IsString != 0 {
+				return true
+			}
+		}
+	}
+	return false
+}
+
 func noBreakFromHeaderLoops(c *Ctx, rule string, names ...string) {
 	for _, name := range names {
 		fn := c.fn(name)
@@ -389,6 +418,9 @@ func noBreakFromHeaderLoops(c *Ctx, rule string, names ...string) {
 				}
 				if exit == nil {
 					continue // for { ... }: left by break/return only
+				}
+				if !overStringList(h) {
+					continue // a scanning loop inside one header line, not the loop over the lines
 				}
 				// the head's other successor is the head of an enclosing loop: a `continue outer`, not this loop's exit
 				enclosing := false
